@@ -470,9 +470,85 @@ def _fold_lock_try(tree):
     return n
 
 
+def _fold_try_keyerror(tree):
+    """`try: x = d[k]` / `except KeyError: x = D` is `x = d.get(k, D)` written out (for a plain dict; the try holds
+    nothing but the subscript)."""
+    n = 0
+    for node in ast.walk(tree):
+        for fld in ("body", "orelse", "finalbody"):
+            lst = getattr(node, fld, None)
+            if not isinstance(lst, list):
+                continue
+            for i, t in enumerate(lst):
+                if not (isinstance(t, ast.Try) and len(t.body) == 1 and len(t.handlers) == 1 and not t.orelse and not t.finalbody):
+                    continue
+                b, h = t.body[0], t.handlers[0]
+                if not (isinstance(b, ast.Assign) and len(b.targets) == 1 and isinstance(b.targets[0], ast.Name) and isinstance(b.value, ast.Subscript)):
+                    continue
+                if not (h.type is not None and ast.unparse(h.type) == "KeyError" and len(h.body) == 1):
+                    continue
+                d = h.body[0]
+                if not (isinstance(d, ast.Assign) and len(d.targets) == 1 and isinstance(d.targets[0], ast.Name) and d.targets[0].id == b.targets[0].id):
+                    continue
+                args = [b.value.slice]
+                if not (isinstance(d.value, ast.Constant) and d.value.value is None):
+                    args.append(d.value)
+                call = ast.Call(func=ast.Attribute(value=b.value.value, attr="get", ctx=ast.Load()), args=args, keywords=[])
+                new = ast.Assign(targets=b.targets, value=call, type_comment=None)
+                ast.copy_location(new, b)
+                ast.copy_location(call, b.value)
+                ast.copy_location(call.func, b.value)
+                lst[i] = new
+                n += 1
+    return n
+
+
+def _fold_split_augassign(tree):
+    """`t = o.a - c` directly followed by `o.a = t` is `o.a -= c` with a name for the new value: the pair becomes
+    the augmented assignment and the other reads of t (a name assigned once, while o.a is not stored again) read
+    o.a."""
+    n = 0
+    for fnode in [x for x in ast.walk(tree) if isinstance(x, (ast.FunctionDef, ast.AsyncFunctionDef))]:
+        for node in ast.walk(fnode):
+            for fld in ("body", "orelse", "finalbody"):
+                lst = getattr(node, fld, None)
+                if not isinstance(lst, list):
+                    continue
+                i = 0
+                while i + 1 < len(lst):
+                    a, b = lst[i], lst[i + 1]
+                    i += 1
+                    if not (isinstance(a, ast.Assign) and len(a.targets) == 1 and isinstance(a.targets[0], ast.Name) and isinstance(a.value, ast.BinOp)
+                            and isinstance(a.value.op, (ast.Add, ast.Sub)) and isinstance(a.value.left, ast.Attribute)):
+                        continue
+                    t = a.targets[0].id
+                    if not (isinstance(b, ast.Assign) and len(b.targets) == 1 and isinstance(b.targets[0], ast.Attribute) and isinstance(b.value, ast.Name) and b.value.id == t
+                            and ast.unparse(b.targets[0]) == ast.unparse(a.value.left)):
+                        continue
+                    attr_src = ast.unparse(a.value.left)
+                    stores_t = [x for x in ast.walk(fnode) if isinstance(x, ast.Name) and x.id == t and isinstance(x.ctx, ast.Store)]
+                    stores_a = [x for x in ast.walk(fnode) if isinstance(x, ast.Attribute) and isinstance(x.ctx, ast.Store) and ast.unparse(x) == attr_src]
+                    if len(stores_t) != 1 or len(stores_a) != 1:
+                        continue
+                    aug = ast.AugAssign(target=b.targets[0], op=a.value.op, value=a.value.right)
+                    ast.copy_location(aug, a)
+                    lst[i - 1:i + 1] = [aug]
+
+                    class _R(ast.NodeTransformer):
+                        def visit_Name(self, nd):
+                            if nd.id == t and isinstance(nd.ctx, ast.Load):
+                                return ast.copy_location(ast.parse(attr_src, mode="eval").body, nd)
+                            return nd
+                    _R().visit(fnode)
+                    n += 1
+    return n
+
+
 def normalize_tree(tree):
     out = {"renamed": _restore_names(tree) + _restore_attrs(tree)}
     out["lock_try_folded"] = _fold_lock_try(tree)
+    out["try_keyerror_folded"] = _fold_try_keyerror(tree)
+    out["split_augassign_folded"] = _fold_split_augassign(tree)
     out.update({"walrus_hoisted": _hoist_walrus(tree), "helpers_expanded": _inline_helpers(tree)})
     out["locals_restored"] = _restore_locals(tree)
     out["walrus_hoisted"] += _hoist_walrus(tree)
@@ -799,6 +875,33 @@ def replay_seeds(verif, repo):
     return out, enforce, cur, base
 
 
+NB_KEY = "self._neighbor_cache[route_entry.next_hop_ip]"
+
+
+def nb_refs(fnode):
+    """Names of fnode that hold the neighbor entry of the route's next hop: every assignment to the name is the cache
+    lookup of that next hop, or a new NeighborEntry that the next statement stores under that next hop."""
+    cands = {}
+    for node in ast.walk(fnode):
+        for fld in ("body", "orelse", "finalbody"):
+            lst = getattr(node, fld, None)
+            if not isinstance(lst, list):
+                continue
+            for i, st in enumerate(lst):
+                if isinstance(st, ast.Assign) and len(st.targets) == 1 and isinstance(st.targets[0], ast.Name):
+                    v = st.targets[0].id
+                    src = ast.unparse(st.value)
+                    ok = src in ("self._neighbor_cache.get(route_entry.next_hop_ip)", NB_KEY)
+                    if isinstance(st.value, ast.Call) and ast.unparse(st.value.func) == "NeighborEntry" and i + 1 < len(lst):
+                        nx = lst[i + 1]
+                        ok = isinstance(nx, ast.Assign) and len(nx.targets) == 1 and ast.unparse(nx.targets[0]) == NB_KEY and isinstance(nx.value, ast.Name) and nx.value.id == v
+                    cands.setdefault(v, []).append(ok)
+    for n in ast.walk(fnode):
+        if isinstance(n, (ast.AugAssign, ast.AnnAssign, ast.For, ast.NamedExpr)) and isinstance(getattr(n, "target", None), ast.Name):
+            cands.setdefault(n.target.id, []).append(False)
+    return {v for v, oks in cands.items() if all(oks)}
+
+
 def run_rules(m, r):
     RC, BC = "RouteController", "BessController"
     add_nb = m.method(RC, "_add_neighbor", "R20.1")
@@ -1049,6 +1152,8 @@ def run_rules(m, r):
             r.check(g.startswith("self._get_gate_idx("), "R20.5", fn(add_nb), "the neighbor entry records the gate the route was added with", m.pos(n), g, f"the neighbor entry records gate {g}")
             stored = enclosing(n, ast.Assign)
             key = ast.unparse(stored.targets[0]) if stored else ""
+            if stored and isinstance(stored.targets[0], ast.Name) and stored.targets[0].id in nb_refs(add_nb):
+                key = NB_KEY  # built in a local that the next statement stores under the route's next hop
             r.check(key == "self._neighbor_cache[route_entry.next_hop_ip]", "R20.5", fn(add_nb), "the neighbor entry is stored under the route's next hop", m.pos(n), key, f"the entry is stored as {key}")
     # the counter key is the lookup module of the route
     for c, k, n in cache_accesses(add_nb):
@@ -1135,7 +1240,7 @@ def run_rules(m, r):
             if isinstance(st.op, ast.Add) and isinstance(st.value, ast.Constant) and isinstance(st.value.value, int):
                 return [(st.value.value, None)]
             return [(UNKNOWN, None)]
-        if isinstance(st, ast.Assign) and isinstance(st.value, ast.Call) and ast.unparse(st.value.func) == "NeighborEntry" and any("_neighbor_cache[" in ast.unparse(t) for t in st.targets):
+        if isinstance(st, ast.Assign) and isinstance(st.value, ast.Call) and ast.unparse(st.value.func) == "NeighborEntry" and any("_neighbor_cache[" in ast.unparse(t) or (isinstance(t, ast.Name) and t.id in nb_refs(add_nb)) for t in st.targets):
             k = 0
             for kw in st.value.keywords:
                 if kw.arg == "route_count":
@@ -1173,7 +1278,8 @@ def run_rules(m, r):
     r.check(ok_counts, "R20.7", fn(add_nb), "every route that reached BESS is counted once", m.pos(incs[0]) if incs else m.pos(add_nb), f"+1 on each of the {len(done)} completing paths",
             f"the route count is not incremented exactly once per installed route (completing paths add {shown})")
     for inc in incs:
-        r.check(ast.unparse(inc.target) == "self._neighbor_cache[route_entry.next_hop_ip].route_count", "R20.7", fn(add_nb), "the count belongs to the route's next hop", m.pos(inc), ast.unparse(inc.target), f"increments {ast.unparse(inc.target)}")
+        tgt_ok = ast.unparse(inc.target) == NB_KEY + ".route_count" or (isinstance(inc.target.value, ast.Name) and inc.target.value.id in nb_refs(add_nb))
+        r.check(tgt_ok, "R20.7", fn(add_nb), "the count belongs to the route's next hop", m.pos(inc), ast.unparse(inc.target), f"increments {ast.unparse(inc.target)}")
     # the BESS add failure path leaves before any bookkeeping
     for t in [n for n in add_nb.body if isinstance(n, ast.Try)]:
         if any(isinstance(x, ast.Call) and isinstance(x.func, ast.Attribute) and x.func.attr == "add_route_to_module" for x in ast.walk(t)):
@@ -1282,8 +1388,21 @@ def run_rules(m, r):
     own_eq = [x.name for x in re_cls.body if isinstance(x, ast.FunctionDef) and x.name in ("__eq__", "__hash__", "__ne__")]
     r.check(not own_eq, "R20.11", "RouteEntry", "no hand-written equality", m.pos(re_cls), "none", f"RouteEntry defines {own_eq}: the rule cannot tell which fields identify a route")
     fields_seen = []
+    # the fields that identify a route are the ones the message parser fills from the kernel's message; a field
+    # nobody sets from the message (a debug time stamp with a default) may stay out of the comparison
+    identity = set()
+    for fnode in ast.walk(m.tree):
+        if isinstance(fnode, ast.FunctionDef):
+            for c in ast.walk(fnode):
+                if isinstance(c, ast.Call) and isinstance(c.func, ast.Name) and c.func.id == re_cls.name:
+                    identity |= {kw.arg for kw in c.keywords if kw.arg}
+                    pos_fields = [x.target.id for x in re_cls.body if isinstance(x, ast.AnnAssign) and isinstance(x.target, ast.Name)]
+                    identity |= set(pos_fields[:len(c.args)])
     for st in re_cls.body:
         if isinstance(st, ast.AnnAssign) and isinstance(st.target, ast.Name):
+            if st.target.id not in identity:
+                r.trivial("R20.11", "RouteEntry", f"field {st.target.id} is never set from a route message", m.pos(st), "not part of a route's identity")
+                continue
             fields_seen.append(st.target.id)
             opt_out = False
             if isinstance(st.value, ast.Call) and ast.unparse(st.value.func) in ("field", "dataclasses.field"):
